@@ -263,6 +263,37 @@ def run_one(job):
     return {"file": rel, "op": op, "desc": desc, "status": status, "by": by[:6], "errors": errs[:2], "wall": round(time.time() - t0, 1)}
 
 
+def run_for_property(prop, limit=40, jobs=16):
+    """Thorough tier: the operator sweep restricted to one property - the files its rules react to (from the committed summary of the
+    last full sweep), at most `limit` evenly spread mutants per file, analysed by that property's rules only. Returns the tally, the
+    per-file tallies and the surviving mutants' descriptions."""
+    from multiprocessing import Pool
+
+    summ = os.path.join(HERE, "sweep_summary.json")
+    rel = json.load(open(summ)).get("properties_reacting_to_file", {}) if os.path.exists(summ) else {}
+    files = sorted(f for f, ps in rel.items() if prop in ps and os.path.exists(os.path.join(SRC, f)))
+    jobs_ = []
+    for rel_f in files:
+        with open(os.path.join(SRC, rel_f), encoding="utf-8") as f:
+            st = sites(ast.parse(f.read()))
+        if limit and len(st) > limit:
+            step = len(st) / limit
+            st = [st[int(k * step)] for k in range(limit)]
+        jobs_ += [(rel_f, i, op, d) for i, op, d in st]
+    PROPS[:] = [prop]
+    RELEVANT.clear()
+    tally, by_file, survivors = {}, {}, []
+    if jobs_:
+        with Pool(min(jobs, len(jobs_))) as pool:
+            for r in pool.imap_unordered(run_one, jobs_, chunksize=1):
+                tally[r["status"]] = tally.get(r["status"], 0) + 1
+                by_file.setdefault(r["file"], {}).setdefault(r["status"], 0)
+                by_file[r["file"]][r["status"]] += 1
+                if r["status"] == "survived":
+                    survivors.append(f"{r['file']}:{r['desc']}")
+    return {"files": files, "mutants": len(jobs_), "tally": tally, "by_file": by_file, "survivors": sorted(survivors)}
+
+
 def summarise(jsonl, out):
     """per-file and per-operator tallies of a finished sweep (the survivors' descriptions are kept so that the reading can be redone)"""
     rows = [json.loads(l) for l in open(jsonl)]
